@@ -40,21 +40,15 @@ def rdItems (e : Endian) (cut : Int) (w : Nat) (n : Int) (s : List Nat) : M (Lis
   else if n < 0 then .error .exotic
   else .ok ((chunks w (min n.toNat (s.length / w)) s).map (natOfBytes e), s.drop (n.toNat * w))
 
-/-- **form 'uint' with 64-bit keys** (finding `op2-rdop2record-uint-i64-struct-format-stays-signed`):
-`frmu = self._intstru.replace("i", "I")` turns `"%di"` into `"%dI"` but leaves `"%dq"` as it is, so below the
-cut-off the items are unpacked as SIGNED integers; storing a negative one into the `uint64` array raises
-OverflowError (numpy ≥ 2) — `Err.exotic` here; from the cut-off on `np.fromfile(f, "u8", n)` reads them unsigned. -/
-def signedUint (v : V2) (f : Form) : Bool := f == .uint && v.bit64
+/-- `while key > 0:` of the numeric forms with `N = 0`: `data.extend(cur)`.
 
-/-- the items of a piece read through the signed struct format that do not fit an unsigned 64-bit cell -/
-def overflow (chk : Bool) (cut n : Int) (cur : List Nat) : Bool :=
-  chk && decide (n < cut) && cur.any (fun x => decide (9223372036854775808 ≤ x))
-
-/-- `while key > 0:` of the numeric forms with `N = 0`: `data.extend(cur)`; the Boolean says whether the final
-`np.array(data, dtype=frm)` overflows (`chk` = form 'uint' with 64-bit keys) -/
-def rdPieces (v : V2) (cut : Int) (w : Nat) (chk : Bool) : Nat → Int → List Nat → List Nat → Bool → M (List Nat × Bool × List Nat)
-  | 0, _, _, _, _ => .error .fuel
-  | fuel + 1, key, s, acc, bad =>
+History (F50, repaired in pyYeti b194dbc): for form 'uint' the struct format was built by
+`self._intstru.replace("i", "I")`, which left the 64-bit `"%dq"` signed; below the cut-off a key with its top bit set
+then raised OverflowError while `np.fromfile` (from the cut-off on) returned it unsigned.  The repaired code also
+replaces `"q"` by `"Q"`, so both paths return the unsigned pattern: what is modelled here. -/
+def rdPieces (v : V2) (cut : Int) (w : Nat) : Nat → Int → List Nat → List Nat → M (List Nat × List Nat)
+  | 0, _, _, _ => .error .fuel
+  | fuel + 1, key, s, acc =>
     if key > 0 then
       match rdI4 v s with
       | .error e => .error e
@@ -64,12 +58,12 @@ def rdPieces (v : V2) (cut : Int) (w : Nat) (chk : Bool) : Nat → Int → List 
         | .ok (cur, s) =>
           match getKey v (s.drop 4) with
           | .error e => .error e
-          | .ok (key, s) => rdPieces v cut w chk fuel key s (acc ++ cur) (bad || overflow chk cut (reclen / (w : Int)) cur)
-    else .ok (acc, bad, s)
+          | .ok (key, s) => rdPieces v cut w fuel key s (acc ++ cur)
+    else .ok (acc, s)
 
 /-- `while key > 0:` with `N > 0`: `data[i : i + n] = …; i += n` into `data = np.empty(N)` (numpy slice
 assignment: `Op2R.assignSlice`) -/
-def rdPiecesN (v : V2) (cut : Int) (w : Nat) (chk : Bool) : Nat → Int → List Nat → List Nat → Int → M (List Nat × Int × List Nat)
+def rdPiecesN (v : V2) (cut : Int) (w : Nat) : Nat → Int → List Nat → List Nat → Int → M (List Nat × Int × List Nat)
   | 0, _, _, _, _ => .error .fuel
   | fuel + 1, key, s, data, i =>
     if key > 0 then
@@ -80,13 +74,12 @@ def rdPiecesN (v : V2) (cut : Int) (w : Nat) (chk : Bool) : Nat → Int → List
         match rdItems v.e cut w n s with
         | .error e => .error e
         | .ok (cur, s) =>
-          if overflow chk cut n cur then .error .exotic else
           match assignSlice data i (i + n) cur with
           | .error e => .error e
           | .ok data =>
             match getKey v (s.drop 4) with
             | .error e => .error e
-            | .ok (key, s) => rdPiecesN v cut w chk fuel key s data (i + n)
+            | .ok (key, s) => rdPiecesN v cut w fuel key s data (i + n)
     else .ok (data, i, s)
 
 /-- `while key > 0:` of `form == "bytes"`: `data.append(f.read(reclen))` -/
@@ -119,11 +112,11 @@ def rdRecordF (v : V2) (cut : Int) (f : Form) (N : Nat) (s : List Nat) : M (Opti
       | .ok (b, s) => .ok (some b, skipKey v 2 s)
     | _ =>
       if N = 0 then
-        match rdPieces v cut (f.width v) (signedUint v f) (s.length + 1) key s [] false with
+        match rdPieces v cut (f.width v) (s.length + 1) key s [] with
         | .error e => .error e
-        | .ok (data, bad, s) => if bad then .error .exotic else .ok (some data, skipKey v 2 s)
+        | .ok (data, s) => .ok (some data, skipKey v 2 s)
       else
-        match rdPiecesN v cut (f.width v) (signedUint v f) (s.length + 1) key s (List.replicate N 0) 0 with
+        match rdPiecesN v cut (f.width v) (s.length + 1) key s (List.replicate N 0) 0 with
         | .error e => .error e
         | .ok (data, i, s) => if i < (N : Int) then .error .exotic else .ok (some data, skipKey v 2 s)
 
